@@ -648,6 +648,12 @@ func runAppCase(seed uint64, idx int, rep *Report, profile string, traceDir stri
 				}}
 			case 4:
 				to := recipients[rng.Intn(len(recipients))]
+				if rng.Chance(20) {
+					// the address of a collector of the distributor: a module account that is blocked for such messages whether or not
+					// its account exists yet (it is created by its first payout, possibly only after a later governance update)
+					to = authtypes.NewModuleAddress([]string{distrtypes.GovernanceBoosterCollector, distrtypes.GreenEnergyBoosterCollector, distrtypes.ValidatorsRewardsCollector}[rng.Intn(3)])
+					rep.Count("tx.create_va_to_a_collector_address")
+				}
 				amt := sdk.NewCoins(sdk.NewCoin(BondDenom, sdk.NewIntFromBigInt(rng.LogUniform(10))))
 				st, en := t.Unix()-rng.I64n(1000), t.Unix()+1+rng.I64n(1000000)
 				ptx = plannedTx{user: ui, fee: fee, kind: "create_va", msg: func(us []appUser) sdk.Msg {
